@@ -1699,6 +1699,51 @@ def smap_attr(E, m, name):
     return NOATTR
 
 
+class SymRange(SymIter):
+    """range(start, stop) with symbolic bounds; for-loops over it are cut in the consumer's frame (k = iteration index)."""
+
+    def __init__(self, start, stop):
+        self.start = start
+        self.stop = stop
+
+    def cut(self, E, node, env, spec, qual, k):
+        from . import engine as ENG_
+        tag = '%s#loop%d' % (qual, k)
+        entry = E.snapshot(env)
+        g = {}
+        ctx0 = ENG_.LoopCtx(E, env, 0, entry, 'entry')
+        ctx0.ghost = g
+        for name, e in spec.invariant(ctx0):
+            E.prove('%s.inv_entry[%s]' % (tag, name), e)
+        mode = E.path.choice(2, 'loop%d' % k)
+        kk = E.fresh_int('k.%s' % k, 0)
+        n = z3.If(I(self.stop) - I(self.start) > 0, I(self.stop) - I(self.start), 0)
+        E.assume(I(kk) <= n)
+        hctx = ENG_.LoopCtx(E, env, kk, entry, 'head')
+        hctx.ghost = g
+        E.havoc_loop(node, env, spec, hctx)
+        E.path.ghost.setdefault('loops', {})[(qual, k)] = hctx
+        for name, e in spec.invariant(hctx):
+            E.assume(e)
+        if mode == 0:
+            E.assume(I(kk) < n)
+            E.assign(node.target, mk_int(I(self.start) + I(kk)), env)
+            try:
+                E.exec_block(node.body, env)
+            except BreakSig:
+                return
+            except ContinueSig:
+                pass
+            ctx1 = ENG_.LoopCtx(E, env, mk_int(I(kk) + 1), entry, 'step')
+            ctx1.ghost = g
+            for name, e in spec.invariant(ctx1):
+                E.prove('%s.inv_preserved[%s]' % (tag, name), e)
+            raise PathEnd('end of arbitrary iteration')
+        else:
+            E.assume(I(kk) == n)
+            E.exec_block(node.orelse, env)
+
+
 class SMapItems(SymIter):
     """Snapshot iteration over the items of a symbolic map (for k, v in list(m.items())).
 
@@ -2132,7 +2177,11 @@ def make_builtins(E):
     def _range(*a):
         if all(isinstance(x, int) for x in a):
             return range(*a)
-        raise Unsupported('range over symbolic bound (needs loop contract)')
+        if len(a) == 1:
+            return SymRange(0, a[0])
+        if len(a) == 2:
+            return SymRange(a[0], a[1])
+        raise Unsupported('range with symbolic step')
     reg('range', _range)
     reg('enumerate', lambda v, start=0: list(enumerate(concrete_iter(E, v), start)))
     reg('zip', lambda *a: list(zip(*[concrete_iter(E, x) for x in a])))
